@@ -377,6 +377,10 @@ class Server(_Server_):
                 conn.close()
                 sys.exit(1)
 
+            # Do not keep the last request and response alive while waiting for the next
+            # request: they may hold proxies, hence references to hosted objects.
+            request = args = kwds = msg = None
+
     def debug_info(self, c):
         with self.mutex:
             return [
